@@ -3,7 +3,7 @@
 
 from rzilcompiler.Transformer.Pures.Pure import Pure
 from rzilcompiler.Transformer.Pures.PureExec import PureExec
-from rzilcompiler.Transformer.Pures.BooleanOp import BooleanOp
+from rzilcompiler.Transformer.Pures.BooleanOp import BooleanOp, is_bool_typed
 from rzilcompiler.Transformer.Pures.CompareOp import CompareOp
 from rzilcompiler.Transformer.Pures.Bool import Bool
 
@@ -17,6 +17,7 @@ class Ternary(PureExec):
             isinstance(self.ops[0], BooleanOp)
             or isinstance(self.ops[0], CompareOp)
             or isinstance(self.ops[0], Bool)
+            or is_bool_typed(self.ops[0])
         ):
             cond = self.ops[0].il_read()
         else:
